@@ -26,6 +26,8 @@ type Pipe struct {
 	// FailReadAfter > 0 makes reads fail with ErrInjected once that many bytes were delivered.
 	CutAfter int64
 	CutErr   error
+	// FlipAt >= 0 (set FlipOn) inverts the byte at that absolute offset of the delivered stream.
+	FlipAt int64
 
 	mu      sync.Mutex
 	cond    *sync.Cond
@@ -41,7 +43,7 @@ var ErrInjected = errors.New("injected transport error")
 
 // NewPipe creates a pipe.
 func NewPipe(name string, s *Sched, capacity int) *Pipe {
-	p := &Pipe{Name: name, S: s, Cap: capacity}
+	p := &Pipe{Name: name, S: s, Cap: capacity, FlipAt: -1}
 	p.cond = sync.NewCond(&p.mu)
 	return p
 }
@@ -99,7 +101,7 @@ func (p *Pipe) Read(b []byte) (int, error) {
 	// the gate is reached once there is something to take (data, end of stream or a closed
 	// pipe): it is the "Fill" step of the specification, not the blocking wait before it
 	p.mu.Lock()
-	for len(p.frags) == 0 && !p.wclosed && !p.rclosed {
+	for len(p.frags) == 0 && !p.wclosed && !p.rclosed && !p.cutReached() {
 		p.cond.Wait()
 	}
 	p.mu.Unlock()
@@ -108,7 +110,7 @@ func (p *Pipe) Read(b []byte) (int, error) {
 	}
 	p.mu.Lock()
 	defer p.mu.Unlock()
-	for len(p.frags) == 0 && !p.wclosed && !p.rclosed {
+	for len(p.frags) == 0 && !p.wclosed && !p.rclosed && !p.cutReached() {
 		p.cond.Wait()
 	}
 	if p.rclosed {
@@ -117,7 +119,7 @@ func (p *Pipe) Read(b []byte) (int, error) {
 		}
 		return 0, io.ErrClosedPipe
 	}
-	if p.CutAfter > 0 && p.read >= p.CutAfter {
+	if p.CutAfter != 0 && p.read >= p.CutAfter {
 		if p.S != nil {
 			p.S.Emit(g, "t."+p.Name+".rfail", map[string]any{"why": "cut"})
 		}
@@ -142,13 +144,16 @@ func (p *Pipe) Read(b []byte) (int, error) {
 	for done < max && n < len(b) && len(p.frags) > 0 {
 		f := p.frags[0]
 		room := len(b) - n
-		if p.CutAfter > 0 && p.read+int64(room) > p.CutAfter {
+		if p.CutAfter != 0 && p.read+int64(room) > p.CutAfter {
 			room = int(p.CutAfter - p.read)
 			if room <= 0 {
 				break
 			}
 		}
 		c := copy(b[n:n+min(room, len(f))], f)
+		if p.FlipAt >= p.read && p.FlipAt < p.read+int64(c) {
+			b[n+int(p.FlipAt-p.read)] ^= 0xff
+		}
 		n += c
 		p.read += int64(c)
 		if c == len(f) {
@@ -168,6 +173,8 @@ func (p *Pipe) Read(b []byte) (int, error) {
 	}
 	return n, nil
 }
+
+func (p *Pipe) cutReached() bool { return p.CutAfter != 0 && p.read >= p.CutAfter }
 
 func (p *Pipe) cutErr() error {
 	if p.CutErr != nil {
